@@ -247,7 +247,7 @@ def run(ctx):
         if r.zero_actions:
             ctx.notes.append("backend model: actions never taken: %s" % r.zero_actions)
         bc = []
-        for (ncl, cap, rounds) in ([(2, 1, 1)] + ([(2, 2, 1), (2, 1, 2)] if thorough else [])):
+        for (ncl, cap, rounds) in ([(2, 1, 1)] + ([(2, 2, 1)] if thorough else [])):
             g = ctx.tlc("ConnPool_gen", "cp_gen.cfg", extra_files={"cp_gen.cfg": B_GEN % bconsts(ncl, cap, rounds)}, workers=1, heap="2g",
                         timeout=600, label="generate: every behaviour of the backend wrapper, %d clients x %d rounds, capacity %d" % (ncl, rounds, cap))
             ctx.log("gen backend", (ncl, cap, rounds), g.stats(), len(g.cases), "behaviours")
